@@ -1,6 +1,6 @@
 use super::dynamic_constraints_encoder_attacks::DynamicConstraintsEncoder;
 use crate::{
-    aa::{AAFramework, Argument, Semantics},
+    aa::{AAFramework, Argument, ArgumentSet, Semantics},
     sat::SatSolver,
     utils::LabelType,
 };
@@ -37,6 +37,8 @@ where
     buffer: Vec<DynamicsEvent<T>>,
     next_to_encode: Cell<usize>,
     encoder: DynamicConstraintsEncoder,
+    // the framework as it will be once the buffered events are applied; used to validate updates when they are issued
+    expected_af: AAFramework<T>,
     solver_factory: Box<dyn Fn() -> Box<dyn SatSolver>>,
 }
 
@@ -55,27 +57,32 @@ where
             buffer: Vec::new(),
             next_to_encode: Cell::new(0),
             encoder,
+            expected_af: AAFramework::new_with_argument_set(ArgumentSet::new_with_labels(&[])),
             solver_factory,
         }
     }
 
     pub fn buffer_new_argument(&mut self, label: T) {
+        self.expected_af.new_argument(label.clone());
         self.buffer.push(DynamicsEvent::NewArgument(label))
     }
 
     pub fn buffer_remove_argument(&mut self, label: &T) -> Result<()> {
+        self.expected_af.remove_argument(label)?;
         self.buffer
             .push(DynamicsEvent::RemoveArgument(label.clone()));
         Ok(())
     }
 
     pub fn buffer_new_attack(&mut self, from: &T, to: &T) -> Result<()> {
+        self.expected_af.new_attack(from, to)?;
         self.buffer
             .push(DynamicsEvent::NewAttack(from.clone(), to.clone()));
         Ok(())
     }
 
     pub fn buffer_remove_attack(&mut self, from: &T, to: &T) -> Result<()> {
+        self.expected_af.remove_attack(from, to)?;
         self.buffer
             .push(DynamicsEvent::RemoveAttack(from.clone(), to.clone()));
         Ok(())
